@@ -1,6 +1,6 @@
 (* C06 -- Top-K collection returns exactly the best K, with deterministic ties.
    Only statements, each closed by `exact <lemma>`, non-vacuity examples, refuted witnesses. *)
-From TV Require Import Base.Prelude Generated.Constants Rank.TopN Rank.Paging.
+From TV Require Import Base.Prelude Generated.Constants Rank.TopN Rank.Paging Rank.Wand.
 From Coq Require Import Sorting.Permutation.
 
 (* the capacity rule `top_n.max(1) * 2` (regenerated literals) leaves room for one more element *)
@@ -151,6 +151,81 @@ Qed.
 Example f15_sorted_instance_ok : c_collect Natural f15_segs 4 0 = Some (c_topk Natural 4 0 (concat f15_segs)).
 Proof. vm_compute. reflexivity. Qed.
 
+(* ================================================================ block-max WAND *)
+(* block_wand_single_scorer (the TermQuery path): for every collector whose returned threshold never
+   decreases, every posting list and every block structure whose block maxima are upper bounds, the
+   pruned run ends -- with the stated fuel -- in exactly the collector state that exhaustive scoring
+   of all postings reaches.  Hence top-K via WAND = top-K via exhaustive scoring. *)
+Theorem C06_wand_single_sound :
+  forall (St : Type) (thr : St -> Z) (step : St -> N -> Z -> St),
+  (forall st d x, (thr st <= thr (step st d x))%Z) ->
+  forall sc st fuel, scorer_ok sc -> upper_bounds sc -> (single_fuel sc <= fuel)%nat ->
+  block_wand_single_scorer St thr step fuel sc st = Some (exhaustive St thr step (sc_post sc) st).
+Proof. exact wand_single_sound. Qed.
+
+(* C06_wand_terminates (single scorer): the fuel bound is linear in postings + blocks *)
+Theorem C06_wand_single_terminates :
+  forall (St : Type) (thr : St -> Z) (step : St -> N -> Z -> St),
+  (forall st d x, (thr st <= thr (step st d x))%Z) ->
+  forall sc st, scorer_ok sc -> upper_bounds sc ->
+  block_wand_single_scorer St thr step (2 * length (sc_post sc) + length (sc_blocks sc) + 2) sc st <> None.
+Proof.
+  intros St thr step Hm sc st Hok Hub. pose proof (wand_single_sound St thr step Hm sc st _ Hok Hub (le_n _)) as H.
+  unfold single_fuel in H. rewrite H. discriminate.
+Qed.
+
+(* non-vacuity: two blocks; the second block (max 3) is skipped once the threshold is 5 *)
+Definition ex_scorer : scorer :=
+  {| sc_post := [(1%N, 2%Z); (4%N, 5%Z); (9%N, 3%Z); (12%N, 1%Z); (20%N, 7%Z)];
+     sc_blocks := [ {| b_last := 4%N; b_max := 5%Z |}; {| b_last := 12%N; b_max := 3%Z |}; {| b_last := TERM; b_max := 7%Z |} ];
+     sc_max := 7%Z |}.
+Example ex_wand_single :
+  block_wand_single_scorer top1_state (top1_thr (-1)) top1_step 20 ex_scorer None = Some (Some (20%N, 7%Z)) /\
+  exhaustive top1_state (top1_thr (-1)) top1_step (sc_post ex_scorer) None = Some (20%N, 7%Z).
+Proof. vm_compute. split; reflexivity. Qed.
+
+(* Without the upper-bound hypothesis the theorem fails: the model, run on metadata that is too low,
+   misses the best document -- this is what F3 and F6 do to the real code. *)
+Definition bad_scorer : scorer :=
+  {| sc_post := [(1%N, 5%Z); (4%N, 1%Z); (9%N, 6%Z)];
+     sc_blocks := [ {| b_last := 4%N; b_max := 5%Z |}; {| b_last := TERM; b_max := 4%Z |} ];
+     sc_max := 6%Z |}.
+Theorem C06_wand_needs_upper_bounds_refuted :
+  block_wand_single_scorer top1_state (top1_thr (-1)) top1_step 20 bad_scorer None = Some (Some (1%N, 5%Z)) /\
+  exhaustive top1_state (top1_thr (-1)) top1_step (sc_post bad_scorer) None = Some (9%N, 6%Z).
+Proof. vm_compute. split; reflexivity. Qed.
+
+(* block_wand for unions (>= 2 scorers): the fuelled transliteration (Rank/Wand.v, Section Union) is
+   exercised here on concrete lists; its general soundness theorem is not proved (partial). *)
+Definition ex_union : list scorer :=
+  [ {| sc_post := [(1%N, 2%Z); (4%N, 5%Z); (9%N, 3%Z); (12%N, 1%Z); (20%N, 7%Z)];
+       sc_blocks := [ {| b_last := 4%N; b_max := 5%Z |}; {| b_last := 12%N; b_max := 3%Z |}; {| b_last := TERM; b_max := 7%Z |} ]; sc_max := 7%Z |};
+    {| sc_post := [(2%N, 1%Z); (4%N, 4%Z); (10%N, 2%Z); (20%N, 1%Z); (31%N, 6%Z)];
+       sc_blocks := [ {| b_last := 10%N; b_max := 4%Z |}; {| b_last := TERM; b_max := 6%Z |} ]; sc_max := 6%Z |} ].
+Example ex_wand_union :
+  block_wand top1_state (top1_thr (-1)) top1_step 100 ex_union None = Some (Some (4%N, 9%Z)) /\
+  exhaustive top1_state (top1_thr (-1)) top1_step (union_postings ex_union) None = Some (4%N, 9%Z).
+Proof. vm_compute. split; reflexivity. Qed.
+
+(* F3: the block-max entry tantivy stores -- the (length, tf) argmax under the SEGMENT's average
+   (here 100) -- evaluated under the SEARCHER's average (here 4550) is strictly below the score of
+   another document of the same block: `upper_bounds` fails.  Classifier: F3_class. *)
+Theorem C06_blockmax_bound_refuted :
+  stored_block_max 100 1 f3_block = (10, 2)%Z /\
+  frac_lt (tf_factor 2 10 4550 1) (tf_factor 6 376 4550 1) = true /\
+  F3_class [(30120, 300); (1200000, 60)]%N = true /\ F3_class [(500, 5); (1000, 10)]%N = false.
+Proof. vm_compute. repeat split; reflexivity. Qed.
+
+(* F6: Bm25Weight::max_score = score(fieldnorm_id 255, tf 2_013_265_944) is not an upper bound: a
+   document of decoded length 984 (1000 tokens, quantised down) holding the term 1000 times scores
+   strictly higher, under the average length 2.5 of the witness corpus.  Classifier: F6_class. *)
+Theorem C06_max_score_bound_refuted :
+  frac_lt (tf_factor (Z.of_N WAND_MAX_SCORE_TF) (decoded_len WAND_MAX_SCORE_FIELDNORM_ID) 5 2)
+          (tf_factor 1000 984 5 2) = true /\
+  F6_class [(1000, 984); (1, 1)]%N = true /\ F6_class [(3, 3); (1, 40)]%N = false.
+Proof. vm_compute. repeat split; reflexivity. Qed.
+
 Print Assumptions C06_topn_exact.
 Print Assumptions C06_merge_paging.
 Print Assumptions C06_collect_exact.
+Print Assumptions C06_wand_single_sound.
